@@ -190,7 +190,7 @@ func BuildWith(r *core.Rand, caseID string, o BuildOpts, pre func(*World)) (*Wor
 					w.Close()
 					return nil, nil, fmt.Errorf("step %d: a batch holding an unmarshalable row was acknowledged nil", s)
 				}
-			case <-time.After(30 * time.Second):
+			case <-time.After(core.Patience):
 				w.Close()
 				return nil, nil, fmt.Errorf("step %d: unmarshalable batch not answered", s)
 			}
@@ -225,7 +225,7 @@ func BuildWith(r *core.Rand, caseID string, o BuildOpts, pre func(*World)) (*Wor
 				rounds = r.Range(2, 4)
 			}
 			for k := 0; k < rounds; k++ {
-				ctx, cancel := context.WithTimeout(context.Background(), 60*time.Second)
+				ctx, cancel := context.WithTimeout(context.Background(), core.Patience)
 				_, err := w.Eng[mi].Merge(ctx)
 				cancel()
 				if err != nil {
@@ -242,7 +242,7 @@ func BuildWith(r *core.Rand, caseID string, o BuildOpts, pre func(*World)) (*Wor
 			if spec.Compression == "none" || r.Chance(0.3) {
 				continue
 			}
-			ctx, cancel := context.WithTimeout(context.Background(), 120*time.Second)
+			ctx, cancel := context.WithTimeout(context.Background(), core.Patience)
 			_, err := w.Eng[mi].Merge(ctx)
 			cancel()
 			if err != nil {
